@@ -33,7 +33,7 @@ def _setup(ip, env):
     from pyvc import models
     from pytrs.parser.plssdesc import plss_parse
     tw, sc = ARRANGEMENTS[env['arrangement']]
-    plss_stubs.install(ip, twprge_matches=tw, sec_matches=sc, layout_oracle=env.get('deduced'))
+    plss_stubs.install(ip, twprge_matches=tw, sec_matches=sc, layout_oracle=env.get('deduced'), pp_identity=False, pp_len_min=60)
     models.register_model(plss_parse.cleanup_desc, lambda ip_, a, k, n: plss_stubs.g_str('G_cleanup', a[0]))
 
 
